@@ -7,6 +7,11 @@ import (
 
 const maxEntries = 128
 
+// The maximum number of packets covered by a single entry.  Since seqnos
+// are compared modulo 2^16, an entry must remain much shorter than 2^15;
+// when an entry is full, we start a new one with the same deltas.
+const maxCount = 1 << 14
+
 type Map struct {
 	mu        sync.Mutex
 	next      uint16
@@ -77,7 +82,8 @@ func addMapping(m *Map, seqno, delta, pidDelta uint16) {
 	}
 
 	i := m.lastEntry
-	if delta == m.entries[i].delta && pidDelta == m.entries[i].pidDelta {
+	if delta == m.entries[i].delta && pidDelta == m.entries[i].pidDelta &&
+		uint16(seqno-m.entries[i].first) < maxCount {
 		m.entries[m.lastEntry].count = seqno - m.entries[i].first + 1
 		return
 	}
